@@ -31,6 +31,8 @@ def reader(kind, probe):
         rd = ['T', 'S', [['.', ['Str', 'u']]]]
     elif kind == 'S.j':
         rd = ['T', 'S', [['.', ['Str', 'j']]]]
+    elif kind == 'S.v.k':
+        rd = ['T', 'S', [['.', ['Str', 'v']], ['.', ['Str', 'k']]]]
     else:
         rd = ['T', 'S', [['.', ['Str', 'globals']], ['.', ['Str', 'k']]]]
     return ['And', [['Tuple', [['Coalesce', [rd], ['Lit', 'MISSING'], None, None, None], ['Fn', ['probe', probe]]]], NEUTRAL], None]
@@ -50,6 +52,14 @@ def binder(kind, marker):
         return ['AssignScope', True, 'k']
     if kind == 'Let':
         return ['Let', [['k', ['Val', marker]]]]
+    if kind == 'S(v=Vars(k=))':
+        # a Vars object is created afresh by every evaluation of the step that binds it; what is stored in it is shared by everything
+        # that sees the binding — and gone with the call
+        return ['Bind', [['v', ['Vars', [['k', marker]]]]]]
+    if kind == 'S(v=Vars())':
+        return ['Bind', [['v', ['Vars', []]]]]
+    if kind == 'A.v.k':
+        return ['Tuple', [['Val', marker], ['T', 'A', [['.', ['Str', 'v']], ['.', ['Str', 'k']]]]]]
     raise ValueError(kind)
 
 
@@ -128,6 +138,11 @@ def corpus():
         {'target': t, 'spec': ['Switch', [[binder('S(k=)', 'key'), R('S.k', 1)]], None], 'scope': [], 'repeat': True},
         {'target': t, 'spec': ['Tuple', [['Switch', [[binder('S(k=)', 'key'), NEUTRAL]], None], R('S.k', 1)]], 'scope': [], 'repeat': True},
         {'target': t, 'spec': ['Tuple', [R('S.u', 1), binder('S(k=)', 'm'), ['Spec', R('S.k', 2), [['k', 'spec-scope']]], R('S.k', 3)]], 'scope': [['u', 'user']], 'repeat': True},
+        # Vars: shared by everything that sees the binding (the write in one dict value is seen by a later step), fresh on every call
+        {'target': t, 'spec': ['Tuple', [binder('S(v=Vars(k=))', 'init'), R('S.v.k', 1), binder('A.v.k', 'stored'), R('S.v.k', 2)]], 'scope': [], 'repeat': True},
+        {'target': t, 'spec': ['Tuple', [binder('S(v=Vars())', None), ['Dict', False, [[['Str', 'x'], binder('A.v.k', 'w')], [['Str', 'y'], R('S.v.k', 1)]]], R('S.v.k', 2)]], 'scope': [], 'repeat': True},
+        {'target': t, 'spec': ['Tuple', [binder('S(v=Vars())', None), ['Tuple', [binder('S(v=Vars(k=))', 'inner'), binder('A.v.k', 'inner-write')]], R('S.v.k', 1)]], 'scope': [], 'repeat': True},
+        {'target': t, 'spec': ['Tuple', [binder('A.v.k', 'no-vars'), R('S.v.k', 1)]], 'scope': [], 'repeat': True},
     ] + [{'target': t, 'spec': sp, 'scope': [], 'repeat': True} for sp in argument_binders()]
 
 
@@ -147,8 +162,8 @@ def argument_binders():
     return out
 
 
-BINDERS = ['S(k=)', 'S(k=)', 'A.k', 'A.globals.k', 'Let', 'S(k=,j=S.k)', 'Let(k=,j=S.k)']
-READERS = ['S.k', 'S.k', "S['k']", 'S.globals.k', 'S.u', 'S.j', 'S.j']
+BINDERS = ['S(k=)', 'S(k=)', 'A.k', 'A.globals.k', 'Let', 'S(k=,j=S.k)', 'Let(k=,j=S.k)', 'S(v=Vars(k=))', 'S(v=Vars())', 'A.v.k', 'A.v.k']
+READERS = ['S.k', 'S.k', "S['k']", 'S.globals.k', 'S.u', 'S.j', 'S.j', 'S.v.k', 'S.v.k']
 
 
 def match_dict_case(rng):
@@ -252,7 +267,7 @@ def generate(rng, tier):
 def run_impl(case):
     out = pyspec.run_glom(case)
     if case.get('repeat'):
-        out2 = pyspec.run_glom(case)
+        out2 = pyspec.run_glom(case, 'twice')
         out['second_run_same'] = (out2.get('ok') == out.get('ok') and out2.get('raise') == out.get('raise') and out2['log'] == out['log'])
     # the other public entry points: values passed through scope= (to the call, to the Spec, to both) are readable the same way
     if case.get('scope'):
